@@ -13,6 +13,7 @@ import (
 type Term struct {
 	Head string
 	N    int     // "c", "k", "ix"
+	Pos  []int   // "argm": the positions of the unmasked elements
 	F    string  // "un", "bin", "fold"
 	Args []*Term // operands
 }
@@ -95,6 +96,20 @@ func ParseTerm(raw json.RawMessage) (*Term, error) {
 			return nil, err
 		}
 		return t, sub(arr[3])
+	case "argm":
+		if err := json.Unmarshal(arr[1], &t.F); err != nil {
+			return nil, err
+		}
+		var xs []json.RawMessage
+		if err := json.Unmarshal(arr[2], &xs); err != nil {
+			return nil, err
+		}
+		for _, x := range xs {
+			if err := sub(x); err != nil {
+				return nil, err
+			}
+		}
+		return t, json.Unmarshal(arr[3], &t.Pos)
 	case "fold", "arg":
 		if err := json.Unmarshal(arr[1], &t.F); err != nil {
 			return nil, err
@@ -145,8 +160,8 @@ type Val struct {
 type Evaluator struct {
 	D      *DT
 	Pal    *Palette
-	Sub    string             // the operator substituted for the placeholder "OP"
-	CellDT func(id int) *DT   // element type of the allocation a cell belongs to (nil: D)
+	Sub    string           // the operator substituted for the placeholder "OP"
+	CellDT func(id int) *DT // element type of the allocation a cell belongs to (nil: D)
 }
 
 var subAlias = map[string]string{"sum": "add", "reduce": "add", "argmax": "max", "argmin": "min"}
@@ -194,6 +209,22 @@ func (e *Evaluator) Eval(t *Term) Val {
 		a := e.Eval(t.Args[0])
 		if a.Open {
 			return a
+		}
+		if e.f(t.F) == "clamp" {
+			// the placeholder operator substituted by clamp: the bounds are the constants the replayer passes (K(1), K(2))
+			lo, hi := e.Pal.Const(e.D, 1), e.Pal.Const(e.D, 2)
+			lt, ok1 := Compare(e.D, "lt", a.V, lo)
+			gt, ok2 := Compare(e.D, "gt", a.V, hi)
+			if !ok1 || !ok2 {
+				return Val{Open: true}
+			}
+			if lt {
+				return Val{V: lo, Exact: true}
+			}
+			if gt {
+				return Val{V: hi, Exact: true}
+			}
+			return Val{V: a.V, Exact: a.Exact}
 		}
 		v, exact, ok := Unary(e.D, e.f(t.F), a.V)
 		if !ok {
@@ -271,6 +302,12 @@ func (e *Evaluator) Eval(t *Term) Val {
 			acc.Tol = 4 * float64(len(t.Args)) * Eps(e.D) * sumAbs
 		}
 		return acc
+	case "argm":
+		r := e.Eval(&Term{Head: "arg", F: t.F, Args: t.Args})
+		if r.Open {
+			return r
+		}
+		return Val{V: t.Pos[r.V.(int)], Exact: true}
 	case "arg":
 		best := -1
 		var bv interface{}
